@@ -25,6 +25,7 @@ type Stats struct {
 	Abandoned     int               `json:"abandoned_bubbles"`
 	ReplayChecks  int               `json:"replay_checks"`
 	StepCaps      int               `json:"step_caps"`
+	MaxAlloc      int64             `json:"max_alloc_bytes_per_execution"`
 	Incomplete    []string          `json:"incomplete,omitempty"`
 	Outcomes      map[uint64]bool   `json:"-"`
 	States        map[uint64]bool   `json:"-"`
@@ -222,6 +223,9 @@ func (e *Explorer) account(sc *Scenario, x *Exec, devs int) {
 		e.abandonedHere++
 	}
 	st.Executions++
+	if x.Alloc > st.MaxAlloc {
+		st.MaxAlloc = x.Alloc
+	}
 	st.Steps += x.Steps
 	st.ByBound[devs]++
 	if x.StepCap {
